@@ -50,6 +50,7 @@ class FakeComm:
             self.slots = {}
             self.lock = threading.Lock()
             self.run = threading.Lock()
+            self.coop = False  # cooperative scheduling (symbolic runs): the rank threads take turns under `run`
 
     def __init__(self, shared, rank):
         self.sh, self.rank = shared, rank
@@ -61,6 +62,9 @@ class FakeComm:
         return self.rank
 
     def _wait(self):
+        if not self.sh.coop:
+            self.sh.barrier.wait()  # concrete replays on the real code: plain threads, no z3 objects involved
+            return
         self.sh.run.release()
         try:
             self.sh.barrier.wait()
@@ -318,8 +322,7 @@ def _run(Rn, variant, N, R, order):
                 outs = [None] * R
                 errs = []
                 sh = FakeComm.Shared(R)
-                from vf import explore
-                active = explore.ACTIVE
+                sh.coop = True
 
                 def work(r):
                     if R > 1:
